@@ -1,18 +1,23 @@
-(* P/Lru: executable model of anyio.functools.AsyncLRUCacheWrapper (functools.py:100-216 of the pinned tree).
+(* P/Lru: executable model of anyio.functools.AsyncLRUCacheWrapper (functools.py:100-217 of the pinned tree).
    Callers are tasks; the actions are the atomic segments of __call__:
      Call c a          lookup / install placeholder / expiry replacement (+ move_to_end) / hit (move_to_end, optional
-                       checkpoint),
-                       `async with lock` up to its first suspension; on the uncontended fast path also the
-                       re-read of the entry and the miss bookkeeping up to the call of the wrapped function
+                       checkpoint), `async with lock` up to its first suspension; on the uncontended fast path also
+                       the re-read of the entry and the miss bookkeeping up to the call of the wrapped function
+     CallX c a         the same call issued inside an already cancelled cancel scope: Lock.acquire() raises at
+                       checkpoint_if_cancelled (free lock) or the queued waiter is cancelled at once (contended lock)
      Resume c          the wake-up of blocked caller c runs: lock acquired -> re-read (KeyError possible) -> miss
                        bookkeeping / eviction -> wrapped function entered;  wrapped function finished -> store,
-                       release, return;  hit checkpoint finished
+                       release, return;  hit checkpoint finished;  cancellation at the lock entry delivered
    plus the environment: WrappedReturns / WrappedRaises (the future the wrapped function waits on is resolved,
-   oracle value), CancelCaller (native Task.cancel() on a blocked caller), Tick (clock used by ttl), Clear
-   (cache_clear(), only with no call in progress).
+   oracle value), CancelCaller (native Task.cancel() on a blocked caller), Tick (clock used by ttl),
+   Clear (cache_clear(), also while calls are in flight: they keep their reference to the discarded dict),
+   NewLoop (the event loop ends with no call in progress and a new one starts: the entries are per loop, the
+   counters hits / misses / currsize live on the wrapper and survive).
+   The entries dicts are indexed by a generation number: `cur` is the dict of the running loop, a caller
+   remembers the generation of the dict it looked its key up in.
    Every placeholder owns a fresh Lock machine (prims/Lock.v) with fast_acquire = negb always_checkpoint.
-   Ghost components (no influence on the behaviour): lkey, produced, stamps, f_inflight, f_waited.
-   Definitions only: proofs are in LruProofs.v / LruThms.v. *)
+   Ghost components (no influence on the behaviour): lkey, produced, stamps, the `counted` mark of a placeholder,
+   the flag set.  Definitions only: proofs are in LruProofs.v / LruInv.v / LruStep.v / LruThms.v. *)
 From AV Require Import Base.
 From AV Require Lock.
 
@@ -22,29 +27,36 @@ Definition val := nat.
 Definition lid := nat.
 
 Inductive entry :=
-| EPlace (l : lid)                      (* (initial_missing, Lock, None): computation not finished *)
+| EPlace (l : lid) (cnt : bool)         (* (initial_missing, Lock, None): computation not finished;
+                                           cnt = ghost: a miss has counted this placeholder in currsize *)
 | EVal (v : val) (exp : option nat).    (* (value, None, expires_at) *)
 
-(* one item of the OrderedDict; ss = ghost stamp of the last insertion-at-the-end / move_to_end *)
+(* one item of the OrderedDict; ss = ghost stamp = logical time of the last use of the key *)
 Record slot := mkslot { sk : key; se : entry; ss : nat }.
 
 Inductive wres := WRet (v : val) | WExc (e : nat).
 
 Inductive cphase :=
 | CIdle
-| CLockWait (k : key) (l : lid) (t0 : nat)                       (* suspended inside lock.acquire(); t0 = time of the call *)
-| CInWrapped (k : key) (l : lid) (pend : option wres) (canc : bool) (* holds l, suspended inside the wrapped function *)
+| CEntryCk (k : key)                    (* cancelled scope: suspended in checkpoint_if_cancelled of Lock.acquire(),
+                                           the lock not yet taken; the CancelledError is on its way *)
+| CLockWait (k : key) (l : lid) (t0 : nat) (g : nat)
+                                        (* suspended inside lock.acquire(); t0 = time of the call, g = its dict *)
+| CInWrapped (k : key) (l : lid) (pend : option wres) (canc : bool) (g : nat)
+                                        (* holds l, suspended inside the wrapped function *)
 | CHitCk (k : key) (v : val) (canc : bool)                        (* hit, suspended in `await checkpoint()` *)
 | CBypass (k : key) (pend : option wres) (canc : bool).           (* maxsize = 0: inside the wrapped function, no cache *)
 
 Inductive op :=
 | Call (c : cid) (a : nat)          (* a = 2 * argument value + (1 if the argument is a float) *)
+| CallX (c : cid) (a : nat)         (* the same, inside an already cancelled scope *)
 | WrappedReturns (c : cid) (v : val)
 | WrappedRaises (c : cid) (e : nat)
 | CancelCaller (c : cid)
 | Resume (c : cid)
 | Tick
-| Clear.
+| Clear
+| NewLoop.
 
 Inductive res :=
 | RRet (v : val)     (* the call returned v *)
@@ -64,8 +76,23 @@ Record cfg := mkcfg {
   ncall : nat               (* callers are 0 .. ncall-1 *)
 }.
 
+(* ghost, sticky: which of the known-finding patterns the history contains *)
+Record flagset := mkfl {
+  fl_inflight : bool;    (* F3: a miss evicted a placeholder whose lock a caller is holding or waiting for *)
+  fl_waited : bool;      (* F8: a completed entry was evicted / expired while a caller of its key (same dict) was
+                            suspended in lock.acquire() *)
+  fl_uncounted : bool;   (* F31: a miss evicted a placeholder that was never counted (its call was aborted while
+                            entering the lock) *)
+  fl_dead : bool;        (* F41: a computation failed or was cancelled and left its counted placeholder behind *)
+  fl_phantom : bool;     (* F30: the wrapper-level currsize counts entries that are not in the running loop's dict
+                            (new loop with currsize <> 0, cache_clear() during a flight) *)
+  fl_bypass2 : bool      (* F32: maxsize = 0 and two calls with the same key in progress at once *)
+}.
+
 Record st := mk {
-  dict : list slot;         (* head = least recently used = what popitem(last=False) pops *)
+  dicts : nat -> list slot; (* by generation; head = least recently used = what popitem(last=False) pops *)
+  cur : nat;                (* generation of the running loop's dict *)
+  has_dict : bool;          (* lru_cache_items of the running loop has an entry for the wrapper *)
   hits : nat;
   misses : nat;
   currsize : Z;             (* a Python int: the code can drive it below zero *)
@@ -76,40 +103,63 @@ Record st := mk {
   clk : nat;                (* ghost: stamp counter *)
   lkey : lid -> key;        (* ghost: the key a lock was created for *)
   produced : list (key * val);  (* ghost: (key, value) of every execution of the wrapped function that returned *)
-  f_inflight : bool;        (* ghost, sticky: some miss evicted a placeholder (finding F3) *)
-  f_waited : bool           (* ghost, sticky: a completed entry was evicted / expired while a caller of its key
-                               was suspended in lock.acquire() (finding F8) *)
+  fl : flagset
 }.
 
+Definition f_inflight (s : st) := fl_inflight (fl s).
+Definition f_waited (s : st) := fl_waited (fl s).
+Definition f_uncounted (s : st) := fl_uncounted (fl s).
+Definition f_dead (s : st) := fl_dead (fl s).
+Definition f_phantom (s : st) := fl_phantom (fl s).
+Definition f_bypass2 (s : st) := fl_bypass2 (fl s).
+Definition dict (s : st) : list slot := dicts s (cur s).
+
 Definition init : st :=
-  mk [] 0 0 0%Z (fun _ => Lock.init true) 0 (fun _ => CIdle) 0 0 (fun _ => 0) [] false false.
+  mk (fun _ => []) 0 false 0 0 0%Z (fun _ => Lock.init true) 0 (fun _ => CIdle) 0 0 (fun _ => 0) []
+     (mkfl false false false false false false).
 
 (* ---------- field updates ---------- *)
-Definition set_dict (s : st) (d : list slot) : st :=
-  mk d (hits s) (misses s) (currsize s) (locks s) (nlock s) (phase s) (now s) (clk s) (lkey s) (produced s)
-     (f_inflight s) (f_waited s).
+Definition set_dict (s : st) (g : nat) (d : list slot) : st :=
+  mk (upd (dicts s) g d) (cur s) (has_dict s) (hits s) (misses s) (currsize s) (locks s) (nlock s) (phase s) (now s)
+     (clk s) (lkey s) (produced s) (fl s).
 Definition set_phase (s : st) (c : cid) (p : cphase) : st :=
-  mk (dict s) (hits s) (misses s) (currsize s) (locks s) (nlock s) (upd (phase s) c p) (now s) (clk s) (lkey s)
-     (produced s) (f_inflight s) (f_waited s).
+  mk (dicts s) (cur s) (has_dict s) (hits s) (misses s) (currsize s) (locks s) (nlock s) (upd (phase s) c p) (now s)
+     (clk s) (lkey s) (produced s) (fl s).
 Definition set_lock (s : st) (l : lid) (L : Lock.st) : st :=
-  mk (dict s) (hits s) (misses s) (currsize s) (upd (locks s) l L) (nlock s) (phase s) (now s) (clk s) (lkey s)
-     (produced s) (f_inflight s) (f_waited s).
+  mk (dicts s) (cur s) (has_dict s) (hits s) (misses s) (currsize s) (upd (locks s) l L) (nlock s) (phase s) (now s)
+     (clk s) (lkey s) (produced s) (fl s).
 Definition set_counts (s : st) (h m : nat) (cs : Z) : st :=
-  mk (dict s) h m cs (locks s) (nlock s) (phase s) (now s) (clk s) (lkey s) (produced s)
-     (f_inflight s) (f_waited s).
+  mk (dicts s) (cur s) (has_dict s) h m cs (locks s) (nlock s) (phase s) (now s) (clk s) (lkey s) (produced s) (fl s).
 Definition bump_clk (s : st) : st :=
-  mk (dict s) (hits s) (misses s) (currsize s) (locks s) (nlock s) (phase s) (now s) (S (clk s)) (lkey s)
-     (produced s) (f_inflight s) (f_waited s).
+  mk (dicts s) (cur s) (has_dict s) (hits s) (misses s) (currsize s) (locks s) (nlock s) (phase s) (now s)
+     (S (clk s)) (lkey s) (produced s) (fl s).
 Definition add_produced (s : st) (k : key) (v : val) : st :=
-  mk (dict s) (hits s) (misses s) (currsize s) (locks s) (nlock s) (phase s) (now s) (clk s) (lkey s)
-     ((k, v) :: produced s) (f_inflight s) (f_waited s).
-Definition set_flags (s : st) (fi fw : bool) : st :=
-  mk (dict s) (hits s) (misses s) (currsize s) (locks s) (nlock s) (phase s) (now s) (clk s) (lkey s)
-     (produced s) fi fw.
+  mk (dicts s) (cur s) (has_dict s) (hits s) (misses s) (currsize s) (locks s) (nlock s) (phase s) (now s) (clk s)
+     (lkey s) ((k, v) :: produced s) (fl s).
+Definition set_fl (s : st) (f : flagset) : st :=
+  mk (dicts s) (cur s) (has_dict s) (hits s) (misses s) (currsize s) (locks s) (nlock s) (phase s) (now s) (clk s)
+     (lkey s) (produced s) f.
+Definition set_has_dict (s : st) : st :=
+  mk (dicts s) (cur s) true (hits s) (misses s) (currsize s) (locks s) (nlock s) (phase s) (now s) (clk s)
+     (lkey s) (produced s) (fl s).
 (* Lock(fast_acquire = not always_checkpoint) created for key k *)
 Definition new_lock (cf : cfg) (s : st) (k : key) : st :=
-  mk (dict s) (hits s) (misses s) (currsize s) (upd (locks s) (nlock s) (Lock.init (negb (ackpt cf))))
-     (S (nlock s)) (phase s) (now s) (clk s) (upd (lkey s) (nlock s) k) (produced s) (f_inflight s) (f_waited s).
+  mk (dicts s) (cur s) (has_dict s) (hits s) (misses s) (currsize s)
+     (upd (locks s) (nlock s) (Lock.init (negb (ackpt cf)))) (S (nlock s)) (phase s) (now s) (clk s)
+     (upd (lkey s) (nlock s) k) (produced s) (fl s).
+
+Definition fl_or_inflight (f : flagset) (b : bool) : flagset :=
+  mkfl (orb (fl_inflight f) b) (fl_waited f) (fl_uncounted f) (fl_dead f) (fl_phantom f) (fl_bypass2 f).
+Definition fl_or_waited (f : flagset) (b : bool) : flagset :=
+  mkfl (fl_inflight f) (orb (fl_waited f) b) (fl_uncounted f) (fl_dead f) (fl_phantom f) (fl_bypass2 f).
+Definition fl_or_uncounted (f : flagset) (b : bool) : flagset :=
+  mkfl (fl_inflight f) (fl_waited f) (orb (fl_uncounted f) b) (fl_dead f) (fl_phantom f) (fl_bypass2 f).
+Definition fl_or_dead (f : flagset) (b : bool) : flagset :=
+  mkfl (fl_inflight f) (fl_waited f) (fl_uncounted f) (orb (fl_dead f) b) (fl_phantom f) (fl_bypass2 f).
+Definition fl_or_phantom (f : flagset) (b : bool) : flagset :=
+  mkfl (fl_inflight f) (fl_waited f) (fl_uncounted f) (fl_dead f) (orb (fl_phantom f) b) (fl_bypass2 f).
+Definition fl_or_bypass2 (f : flagset) (b : bool) : flagset :=
+  mkfl (fl_inflight f) (fl_waited f) (fl_uncounted f) (fl_dead f) (fl_phantom f) (orb (fl_bypass2 f) b).
 
 (* ---------- the ordered dict ---------- *)
 Fixpoint dfind (k : key) (d : list slot) : option slot :=
@@ -142,7 +192,21 @@ Definition dmove (k : key) (stamp : nat) (d : list slot) : list slot :=
   | None => d
   end.
 
-Definition is_place (e : entry) : bool := match e with EPlace _ => true | EVal _ _ => false end.
+Definition is_place (e : entry) : bool := match e with EPlace _ _ => true | EVal _ _ => false end.
+
+(* ghost: the placeholder of key k (if it is one) is marked as counted *)
+Definition dmark (k : key) (d : list slot) : list slot :=
+  match dfind k d with
+  | Some x => match se x with EPlace l _ => dset_in k (EPlace l true) d | EVal _ _ => d end
+  | None => d
+  end.
+
+(* the computation of key k ended without a result and its counted placeholder is still there *)
+Definition dead_left (k : key) (d : list slot) : bool :=
+  match dfind k d with
+  | Some x => match se x with EPlace _ true => true | _ => false end
+  | None => false
+  end.
 
 (* ---------- small helpers ---------- *)
 Definition key_of (cf : cfg) (a : nat) : key := if typed cf then a else Nat.div2 a.
@@ -158,12 +222,29 @@ Definition full (cf : cfg) (s : st) : bool :=
 
 Definition is_cidle (p : cphase) : bool := match p with CIdle => true | _ => false end.
 
-Definition waits_for (k : key) (p : cphase) : bool :=
-  match p with CLockWait k' _ _ => Nat.eqb k' k | _ => false end.
+Definition waits_for (k : key) (g : nat) (p : cphase) : bool :=
+  match p with CLockWait k' _ _ g' => andb (Nat.eqb k' k) (Nat.eqb g' g) | _ => false end.
 
-(* some caller of key k is suspended in lock.acquire() *)
-Definition waited (cf : cfg) (s : st) (k : key) : bool :=
-  existsb (fun c => waits_for k (phase s c)) (seq 0 (ncall cf)).
+(* some caller of key k (in dict g) is suspended in lock.acquire() *)
+Definition waited (cf : cfg) (s : st) (k : key) (g : nat) : bool :=
+  existsb (fun c => waits_for k g (phase s c)) (seq 0 (ncall cf)).
+
+Definition refs (l : lid) (p : cphase) : bool :=
+  match p with
+  | CLockWait _ l' _ _ => Nat.eqb l' l
+  | CInWrapped _ l' _ _ _ => Nat.eqb l' l
+  | _ => false
+  end.
+
+(* some caller holds lock l or is suspended in its acquire() *)
+Definition referenced (cf : cfg) (s : st) (l : lid) : bool :=
+  existsb (fun c => refs l (phase s c)) (seq 0 (ncall cf)).
+
+Definition bypasses (k : key) (p : cphase) : bool :=
+  match p with CBypass k' _ _ => Nat.eqb k' k | _ => false end.
+
+Definition bypassing (cf : cfg) (s : st) (k : key) : bool :=
+  existsb (fun c => bypasses k (phase s c)) (seq 0 (ncall cf)).
 
 Definition all_idle (cf : cfg) (s : st) : bool :=
   forallb (fun c => is_cidle (phase s c)) (seq 0 (ncall cf)).
@@ -179,32 +260,38 @@ Definition release (s : st) (c : cid) (l : lid) : st * bool :=
 Definition finish (s : st) (c : cid) (ok : bool) (r : res) : st * res :=
   (set_phase s c CIdle, if ok then r else RLockErr).
 
-(* cache_entry.popitem(last=False) at a miss, with the ghost flags *)
-Definition evict (cf : cfg) (s : st) : st :=
-  match dict s with
-  | [] => s
-  | x :: r =>
-      set_flags (set_dict s r)
-        (orb (f_inflight s) (is_place (se x)))
-        (orb (f_waited s) (andb (negb (is_place (se x))) (waited cf s (sk x))))
+(* cache_entry.popitem(last=False) at a miss in dict g, with the ghost flags *)
+Definition evict_flags (cf : cfg) (s : st) (g : nat) (x : slot) : flagset :=
+  match se x with
+  | EPlace l cnt =>
+      if referenced cf s l then fl_or_inflight (fl s) true
+      else fl_or_uncounted (fl s) (negb cnt)
+  | EVal _ _ => fl_or_waited (fl s) (waited cf s (sk x) g)
   end.
 
-(* lines 197-214: the caller holds lock l *)
-Definition body (cf : cfg) (s : st) (c : cid) (k : key) (l : lid) : st * res :=
-  match dfind k (dict s) with
+Definition evict (cf : cfg) (s : st) (g : nat) : st :=
+  match dicts s g with
+  | [] => s
+  | x :: r => set_fl (set_dict s g r) (evict_flags cf s g x)
+  end.
+
+(* lines 197-214: the caller holds lock l; its dict is generation g *)
+Definition body (cf : cfg) (s : st) (c : cid) (k : key) (l : lid) (g : nat) : st * res :=
+  match dfind k (dicts s g) with
   | None =>
       (* cache_entry[key] raises KeyError inside the `async with` *)
       let '(s1, ok) := release s c l in finish s1 c ok RKeyError
   | Some x =>
       match se x with
-      | EPlace _ =>
+      | EPlace _ _ =>
           let s1 := set_counts s (hits s) (S (misses s)) (currsize s) in
-          let s2 := if full cf s1 then evict cf s1
+          let s2 := if full cf s1 then evict cf s1 g
                     else set_counts s1 (hits s1) (misses s1) (currsize s1 + 1)%Z in
-          (set_phase s2 c (CInWrapped k l None false), RBlocked)
+          let s3 := set_dict s2 g (dmark k (dicts s2 g)) in
+          (set_phase s3 c (CInWrapped k l None false g), RBlocked)
       | EVal v _ =>
           let s1 := set_counts s (S (hits s)) (misses s) (currsize s) in
-          let s2 := bump_clk (set_dict s1 (dmove k (clk s1) (dict s1))) in
+          let s2 := bump_clk (set_dict s1 g (dmove k (clk s1) (dicts s1 g))) in
           let '(s3, ok) := release s2 c l in finish s3 c ok (RRet v)
       end
   end.
@@ -212,87 +299,113 @@ Definition body (cf : cfg) (s : st) (c : cid) (k : key) (l : lid) : st * res :=
 (* `async with lock:` entered by idle caller c.  (The caller is marked CLockWait before the lock is touched;
    on the paths that do not suspend the mark is overwritten in the same step.) *)
 Definition acquire (cf : cfg) (s : st) (c : cid) (k : key) (l : lid) : st * res :=
-  let '(s1, r) := lock_do (set_phase s c (CLockWait k l (now s))) l (Lock.AcqBegin c) in
+  let g := cur s in
+  let '(s1, r) := lock_do (set_phase s c (CLockWait k l (now s) g)) l (Lock.AcqBegin c) in
   match r with
-  | Lock.RDone => body cf s1 c k l
+  | Lock.RDone => body cf s1 c k l g
   | Lock.RBlocked => (s1, RBlocked)
   | _ => (set_phase s1 c CIdle, RLockErr)
+  end.
+
+(* the same inside an already cancelled scope: a free lock is not even taken (checkpoint_if_cancelled suspends and
+   then raises); on a contended lock the caller queues and its future is cancelled by the scope at once *)
+Definition acquire_x (cf : cfg) (s : st) (c : cid) (k : key) (l : lid) : st * res :=
+  match Lock.owner (locks s l), Lock.waiters (locks s l) with
+  | None, [] => (set_phase s c (CEntryCk k), RBlocked)
+  | _, _ =>
+      let '(s1, r) := lock_do (set_phase s c (CLockWait k l (now s) (cur s))) l (Lock.AcqBegin c) in
+      match r with
+      | Lock.RBlocked => let '(s2, _) := lock_do s1 l (Lock.Cancel c) in (s2, RBlocked)
+      | _ => (set_phase s1 c CIdle, RLockErr)
+      end
   end.
 
 Definition is_zero_max (cf : cfg) : bool :=
   match maxsize cf with Some 0 => true | _ => false end.
 
+(* __call__ up to its first suspension; x = issued inside an already cancelled scope *)
+Definition enter (cf : cfg) (s : st) (c : cid) (a : nat) (x : bool) : st * res :=
+  if negb (Nat.ltb c (ncall cf)) then (s, RRejected) else
+  if negb (is_cidle (phase s c)) then (s, RRejected) else
+  let k := key_of cf a in
+  if is_zero_max cf then
+    (set_phase (set_fl s (fl_or_bypass2 (fl s) (bypassing cf s k))) c (CBypass k None x), RBlocked)
+  else
+  let s := set_has_dict s in
+  let acq := if x then acquire_x else acquire in
+  match dfind k (dict s) with
+  | None =>
+      let l := nlock s in
+      let s1 := new_lock cf s k in
+      let s2 := bump_clk (set_dict s1 (cur s1) (dict s1 ++ [mkslot k (EPlace l false) (clk s1)])) in
+      acq cf s2 c k l
+  | Some y =>
+      match se y with
+      | EPlace l _ => acq cf s c k l
+      | EVal v exp =>
+          if expired exp (now s) then
+            let l := nlock s in
+            let s1 := set_fl s (fl_or_waited (fl s) (waited cf s k (cur s))) in
+            let s2 := set_counts s1 (hits s1) (misses s1) (currsize s1 - 1)%Z in
+            let s3 := new_lock cf s2 k in
+            (* cache_entry[key] = placeholder; cache_entry.move_to_end(key)  (the recomputation is a use) *)
+            let s4 := bump_clk (set_dict s3 (cur s3)
+                                   (dmove k (clk s3) (dset_in k (EPlace l false) (dict s3)))) in
+            acq cf s4 c k l
+          else
+            let s1 := set_counts s (S (hits s)) (misses s) (currsize s) in
+            let s2 := bump_clk (set_dict s1 (cur s1) (dmove k (clk s1) (dict s1))) in
+            if ackpt cf then (set_phase s2 c (CHitCk k v x), RBlocked) else (s2, RRet v)
+      end
+  end.
+
 Definition step (cf : cfg) (s : st) (o : op) : st * res :=
   match o with
-  | Call c a =>
-      if negb (Nat.ltb c (ncall cf)) then (s, RRejected) else
-      if negb (is_cidle (phase s c)) then (s, RRejected) else
-      let k := key_of cf a in
-      if is_zero_max cf then (set_phase s c (CBypass k None false), RBlocked) else
-      match dfind k (dict s) with
-      | None =>
-          let l := nlock s in
-          let s1 := new_lock cf s k in
-          let s2 := bump_clk (set_dict s1 (dict s1 ++ [mkslot k (EPlace l) (clk s1)])) in
-          acquire cf s2 c k l
-      | Some x =>
-          match se x with
-          | EPlace l => acquire cf s c k l
-          | EVal v exp =>
-              if expired exp (now s) then
-                let l := nlock s in
-                let s1 := set_flags s (f_inflight s) (orb (f_waited s) (waited cf s k)) in
-                let s2 := set_counts s1 (hits s1) (misses s1) (currsize s1 - 1)%Z in
-                let s3 := new_lock cf s2 k in
-                (* cache_entry[key] = placeholder; cache_entry.move_to_end(key)  (the recomputation is a use) *)
-                let s4 := bump_clk (set_dict s3 (dmove k (clk s3) (dset_in k (EPlace l) (dict s3)))) in
-                acquire cf s4 c k l
-              else
-                let s1 := set_counts s (S (hits s)) (misses s) (currsize s) in
-                let s2 := bump_clk (set_dict s1 (dmove k (clk s1) (dict s1))) in
-                if ackpt cf then (set_phase s2 c (CHitCk k v false), RBlocked) else (s2, RRet v)
-          end
-      end
+  | Call c a => enter cf s c a false
+  | CallX c a => enter cf s c a true
   | WrappedReturns c v =>
       match phase s c with
-      | CInWrapped k l None false => (set_phase s c (CInWrapped k l (Some (WRet v)) false), RNone)
+      | CInWrapped k l None false g => (set_phase s c (CInWrapped k l (Some (WRet v)) false g), RNone)
       | CBypass k None false => (set_phase s c (CBypass k (Some (WRet v)) false), RNone)
       | _ => (s, RRejected)
       end
   | WrappedRaises c e =>
       match phase s c with
-      | CInWrapped k l None false => (set_phase s c (CInWrapped k l (Some (WExc e)) false), RNone)
+      | CInWrapped k l None false g => (set_phase s c (CInWrapped k l (Some (WExc e)) false g), RNone)
       | CBypass k None false => (set_phase s c (CBypass k (Some (WExc e)) false), RNone)
       | _ => (s, RRejected)
       end
   | CancelCaller c =>
       match phase s c with
       | CIdle => (s, RRejected)
-      | CLockWait k l t0 => let '(s1, _) := lock_do s l (Lock.Cancel c) in (s1, RNone)
-      | CInWrapped k l pend _ => (set_phase s c (CInWrapped k l pend true), RNone)
+      | CEntryCk k => (s, RNone)
+      | CLockWait k l t0 g => let '(s1, _) := lock_do s l (Lock.Cancel c) in (s1, RNone)
+      | CInWrapped k l pend _ g => (set_phase s c (CInWrapped k l pend true g), RNone)
       | CHitCk k v _ => (set_phase s c (CHitCk k v true), RNone)
       | CBypass k pend _ => (set_phase s c (CBypass k pend true), RNone)
       end
   | Resume c =>
       match phase s c with
       | CIdle => (s, RRejected)
-      | CLockWait k l t0 =>
+      | CEntryCk k => (set_phase s c CIdle, RCancelled)
+      | CLockWait k l t0 g =>
           let '(s1, r) := lock_do s l (Lock.Resume c) in
           match r with
-          | Lock.RDone => body cf s1 c k l
+          | Lock.RDone => body cf s1 c k l g
           | Lock.RCancelled => (set_phase s1 c CIdle, RCancelled)
           | Lock.RRejected => (s, RRejected)
           | _ => (set_phase s1 c CIdle, RLockErr)
           end
-      | CInWrapped k l pend canc =>
-          if canc then let '(s1, ok) := release s c l in finish s1 c ok RCancelled
+      | CInWrapped k l pend canc g =>
+          let sd := set_fl s (fl_or_dead (fl s) (dead_left k (dicts s g))) in
+          if canc then let '(s1, ok) := release sd c l in finish s1 c ok RCancelled
           else match pend with
                | None => (s, RRejected)
                | Some (WRet v) =>
                    let s1 := add_produced s k v in
-                   let s2 := bump_clk (set_dict s1 (dstore k (EVal v (new_exp cf (now s1))) (clk s1) (dict s1))) in
+                   let s2 := bump_clk (set_dict s1 g (dstore k (EVal v (new_exp cf (now s1))) (clk s1) (dicts s1 g))) in
                    let '(s3, ok) := release s2 c l in finish s3 c ok (RRet v)
-               | Some (WExc e) => let '(s1, ok) := release s c l in finish s1 c ok (RExc e)
+               | Some (WExc e) => let '(s1, ok) := release sd c l in finish s1 c ok (RExc e)
                end
       | CHitCk k v canc => (set_phase s c CIdle, if canc then RCancelled else RRet v)
       | CBypass k pend canc =>
@@ -306,20 +419,35 @@ Definition step (cf : cfg) (s : st) (o : op) : st * res :=
                end
       end
   | Tick =>
-      (mk (dict s) (hits s) (misses s) (currsize s) (locks s) (nlock s) (phase s) (S (now s)) (clk s) (lkey s)
-          (produced s) (f_inflight s) (f_waited s), RNone)
+      (mk (dicts s) (cur s) (has_dict s) (hits s) (misses s) (currsize s) (locks s) (nlock s) (phase s) (S (now s))
+          (clk s) (lkey s) (produced s) (fl s), RNone)
   | Clear =>
+      (* `if cache := lru_cache_items.get(None): cache.pop(self, None); hits = misses = currsize = 0` *)
+      if has_dict s then
+        (mk (upd (dicts s) (S (cur s)) []) (S (cur s)) false 0 0 0%Z (locks s) (nlock s) (phase s) (now s) (clk s)
+            (lkey s) (produced s) (fl_or_phantom (fl s) (negb (all_idle cf s))), RNone)
+      else (s, RNone)
+  | NewLoop =>
       if negb (all_idle cf s) then (s, RRejected) else
-      if is_zero_max cf then (s, RNone)       (* no cache dict was ever created: cache_clear() resets nothing *)
-      else (set_counts (set_dict s []) 0 0 0%Z, RNone)
+      (mk (upd (dicts s) (S (cur s)) []) (S (cur s)) false (hits s) (misses s) (currsize s) (locks s) (nlock s)
+          (phase s) (now s) (clk s) (lkey s) (produced s)
+          (fl_or_phantom (fl s) (negb (Z.eqb (currsize s) 0))), RNone)
   end.
 
-(* ---------- the two known-finding predicates, evaluated by the model on a history ---------- *)
+(* ---------- the known-finding predicates, evaluated by the model on a history ---------- *)
 Definition run (cf : cfg) (ops : list op) : st := final (step cf) init ops.
 Definition evicts_inflight (cf : cfg) (ops : list op) : bool := f_inflight (run cf ops).
 Definition evicts_waited (cf : cfg) (ops : list op) : bool := f_waited (run cf ops).
+Definition uncounted_placeholder (cf : cfg) (ops : list op) : bool := f_uncounted (run cf ops).
+Definition dead_placeholder_counted (cf : cfg) (ops : list op) : bool := f_dead (run cf ops).
+Definition stale_count_other_loop (cf : cfg) (ops : list op) : bool := f_phantom (run cf ops).
+Definition maxsize0_no_single_flight (cf : cfg) (ops : list op) : bool := f_bypass2 (run cf ops).
 Definition no_inflight_eviction (cf : cfg) (ops : list op) : Prop := evicts_inflight cf ops = false.
 Definition no_waited_eviction (cf : cfg) (ops : list op) : Prop := evicts_waited cf ops = false.
+Definition no_uncounted_eviction (cf : cfg) (ops : list op) : Prop := uncounted_placeholder cf ops = false.
+Definition no_dead_placeholder (cf : cfg) (ops : list op) : Prop := dead_placeholder_counted cf ops = false.
+Definition no_other_loop (cf : cfg) (ops : list op) : Prop := stale_count_other_loop cf ops = false.
+Definition maxsize_pos (cf : cfg) : Prop := is_zero_max cf = false.
 
 (* ---------- observable output of a step (what the harness compares) ---------- *)
 Definition res_obs (r : res) : list Z :=
@@ -330,17 +458,20 @@ Definition res_obs (r : res) : list Z :=
 
 Definition slot_obs (s : st) (x : slot) : list Z :=
   match se x with
-  | EPlace l =>
+  | EPlace l cnt =>
       let L := locks s l in
       [nz (sk x); 0%Z;
        (2 * nz (length (Lock.waiters L)) + bz (match Lock.owner L with Some _ => true | None => false end))%Z;
-       0%Z]
+       bz cnt]
   | EVal v exp => [nz (sk x); 1%Z; nz v; oz exp]
   end.
 
+Definition flags_obs (f : flagset) : list Z :=
+  [bz (fl_inflight f); bz (fl_waited f); bz (fl_uncounted f); bz (fl_dead f); bz (fl_phantom f); bz (fl_bypass2 f)].
+
 Definition observe (s : st) (r : res) : list Z :=
-  res_obs r ++ [nz (hits s); nz (misses s); currsize s; bz (f_inflight s); bz (f_waited s);
-                nz (length (dict s))] ++ flat_map (slot_obs s) (dict s).
+  res_obs r ++ [nz (hits s); nz (misses s); currsize s] ++ flags_obs (fl s) ++
+  [nz (length (dict s))] ++ flat_map (slot_obs s) (dict s).
 
 (* ---------- codec: flat integer encoding of a case (shared with the Python harness) ---------- *)
 Definition decode_opt (z : Z) : option nat := if Z.eqb z 0 then None else Some (zn (z - 1)).
@@ -348,7 +479,8 @@ Definition decode_opt (z : Z) : option nat := if Z.eqb z 0 then None else Some (
 Definition decode_op (c x y : Z) : op :=
   match c with
   | 0 => Call (zn x) (zn y) | 1 => WrappedReturns (zn x) (zn y) | 2 => WrappedRaises (zn x) (zn y)
-  | 3 => CancelCaller (zn x) | 4 => Resume (zn x) | 5 => Tick | _ => Clear
+  | 3 => CancelCaller (zn x) | 4 => Resume (zn x) | 5 => Tick | 6 => Clear | 7 => CallX (zn x) (zn y)
+  | _ => NewLoop
   end%Z.
 
 Fixpoint decode_ops (l : list Z) : list op :=
